@@ -552,7 +552,7 @@ Section FlatStatements.
   Proof. apply local_flat_split. Qed.
 
   (* ---- SingleInstancePredictor: records (frame_idx, video_idx, [instance]) of a batch; fx = false is the code of
-     the pinned AND of the current tree, fx = true the proposed repair C12_F62 *)
+     the pinned tree (before fix 8463f22, historic), fx = true the CURRENT tree (repair C12_F62 = 8463f22) *)
   Theorem c12_single_frames_is_per_frame : forall fx rf C (fs : list (src frame)),
     (forall s, In s fs -> length (cmaps (s_img frame s)) = C) ->
     sframes fx rf C fs = flat_map (sframes1 fx rf) fs.
